@@ -663,7 +663,7 @@ def write_evidence(prop, tier, base_seed, agg, st_msg, violations_new, extra=Non
                           'pathlib', 'os.path', 'os.makedirs', 'io buffering'],
             'stubs': ['file system under /__simfs__ (in-memory, POSIX semantics)', 'time.time as seen by parso.cache',
                       'editor / janitor / corrupter / power-loss drivers', 'process death and restart',
-                      'os.getpid'],
+                      'os.getpid', 'lock objects of the cache modules (stand-ins: a blocked acquire yields to the owner)'],
             'harness_errors': agg['harness'][:5],
             'lost_tasks': agg.get('lost_tasks', [])[:5],
         },
